@@ -322,15 +322,20 @@ fn do_converters() -> J {
     json!({"converters":v})
 }
 
-fn handle(req: &J, shared: &Ctx) -> J {
+// The evaluation context is built on first use (inside the panic capture of the
+// request that needs it): Environment::new parses the standard library and panics
+// if that fails, which must be data of an eval/build request, not a dead harness.
+type Shared = std::cell::OnceCell<Ctx>;
+
+fn handle(req: &J, shared: &Shared) -> J {
     match req["op"].as_str().unwrap_or("") {
         "ping" => json!({"pong":true,"hooks":cfg!(feature = "hooks")}),
         "tokens" => do_tokens(req),
         "parse" => do_parse(req),
         "fmt" => do_fmt(req),
         "ops" => do_ops(req),
-        "eval" => do_eval(req, shared),
-        "build" => do_build(req, shared),
+        "eval" => do_eval(req, shared.get_or_init(Ctx::new)),
+        "build" => do_build(req, shared.get_or_init(Ctx::new)),
         "convert" => do_convert(req),
         "import" => do_import(req),
         "converters" => do_converters(),
@@ -376,7 +381,7 @@ fn panic_msg(p: &Box<dyn std::any::Any + Send>) -> String {
 fn serve() {
     let stdin = std::io::stdin();
     let stdout = std::io::stdout();
-    let shared = Ctx::new();
+    let shared: Shared = std::cell::OnceCell::new();
     for line in stdin.lock().lines() {
         let line = match line {
             Ok(l) => l,
